@@ -152,8 +152,8 @@ func runStreamDirect(id int, c *streamCase, dp *dict.Parser) streamLine {
 	return l
 }
 
-func runStreamConn(id int, c *streamCase, dp *dict.Parser) streamLine {
-	l := streamLine{Ev: "stream", ID: id, Path: "conn", Exact: false, Lens: c.Lens, Total: c.Total, Chunks: c.Chunks, Results: []streamResult{}}
+func runStreamConn(id int, c *streamCase, dp *dict.Parser, cnAt int) streamLine {
+	l := streamLine{Ev: "stream", ID: id, Path: map[bool]string{false: "conn", true: "conn+closenotify"}[cnAt > 0], Exact: false, Lens: c.Lens, Total: c.Total, Chunks: c.Chunks, Results: []streamResult{}}
 	data := streamBytes(c.Lens)
 	if c.Total < len(data) {
 		data = data[:c.Total]
@@ -161,8 +161,14 @@ func runStreamConn(id int, c *streamCase, dp *dict.Parser) streamLine {
 	mc := memnet.NewConn()
 	mux := diam.NewServeMux()
 	var mu sync.Mutex
-	mux.HandleFunc("ALL", func(_ diam.Conn, m *diam.Message) {
+	nmsg := 0
+	mux.HandleFunc("ALL", func(dc diam.Conn, m *diam.Message) {
 		idx, pure := classify(m)
+		nmsg++
+		if nmsg == cnAt {
+			// the handler asks for close notification while later bytes may already be buffered
+			dc.(diam.CloseNotifier).CloseNotify()
+		}
 		mu.Lock()
 		l.Results = append(l.Results, streamResult{Kind: "msg", Idx: idx, Pure: pure})
 		mu.Unlock()
@@ -224,7 +230,8 @@ func Stream(a Args) error {
 	run := func(c *streamCase) {
 		id++
 		out.Emit(runStreamDirect(id, c, vp))
-		out.Emit(runStreamConn(id, c, vp))
+		out.Emit(runStreamConn(id, c, vp, 0))
+		out.Emit(runStreamConn(id, c, vp, 1+id%2))
 	}
 	if a.Cases != "" {
 		err = ReadLines(a.Cases, func(line []byte) error {
